@@ -31,6 +31,7 @@ class Atom(str):
 
 _LIT_END = re.compile(rb"\{(\d+)\}$")
 _LIT_HDR = re.compile(rb"\{(\d+)\}")
+_SECTION_ITEMS = (b"BODY", b"BODY.PEEK", b"BINARY", b"BINARY.PEEK", b"BINARY.SIZE")
 
 
 class Splitter:
@@ -226,7 +227,8 @@ class _Tok:
                     depth_br += 1
                 i += 1
                 continue
-            if ch == 0x5B:  # [ starts a section spec: BODY[...]
+            if ch == 0x5B and bytes(p[self.pos : i]).upper() in _SECTION_ITEMS:
+                # BODY[...]: the section spec may contain spaces and parens
                 depth_br += 1
                 i += 1
                 continue
